@@ -75,15 +75,11 @@ func runC07(c *Ctx) {
 	for _, fd := range methods {
 		ast.Inspect(fd.Body, func(n ast.Node) bool {
 			if c, ok := n.(*ast.CallExpr); ok {
-				if se, ok := ast.Unparen(c.Fun).(*ast.SelectorExpr); ok {
-					if inner, ok := ast.Unparen(se.X).(*ast.SelectorExpr); ok && rawKey(inner.X) == "binary" {
-						switch se.Sel.Name {
-						case "PutUint64":
-							encOrders = append(encOrders, inner.Sel.Name)
-						case "Uint64":
-							decOrders = append(decOrders, inner.Sel.Name)
-						}
-					}
+				switch role, order, _ := uint64Codec(info, c); role {
+				case "enc":
+					encOrders = append(encOrders, order)
+				case "dec":
+					decOrders = append(decOrders, order)
 				}
 			}
 			return true
@@ -106,13 +102,38 @@ func runC07(c *Ctx) {
 		}
 		// the value encoded into a store write: the PutUint64 that reaches it
 		encoded := func(sc *ast.CallExpr) (ast.Expr, Point, bool) {
+			// the written bytes are the result of an appending encoder (on every path)
+			if len(sc.Args) == 2 {
+				var val ast.Expr
+				var vpt Point
+				n, all := 0, true
+				for _, o := range f.Origins(sc.Args[1], setPt[sc]) {
+					n++
+					c, isCall := ast.Unparen(o.E).(*ast.CallExpr)
+					if !isCall {
+						all = false
+						continue
+					}
+					if role, _, v := uint64Codec(info, c); role == "enc" && rawKey(ast.Unparen(c.Fun).(*ast.SelectorExpr).Sel) == "AppendUint64" && isNil(info, c.Args[0]) {
+						if val != nil && f.KeyAt(val, vpt) != f.KeyAt(v, o.At) {
+							all = false
+						}
+						val, vpt = v, o.At
+					} else {
+						all = false
+					}
+				}
+				if n > 0 && all && val != nil {
+					return val, vpt, true
+				}
+			}
 			isPut := func(n ast.Node) bool {
 				c, ok := n.(*ast.CallExpr)
 				if !ok {
 					return false
 				}
-				se, ok := ast.Unparen(c.Fun).(*ast.SelectorExpr)
-				return ok && se.Sel.Name == "PutUint64" && len(c.Args) == 2
+				role, _, _ := uint64Codec(info, c)
+				return role == "enc"
 			}
 			var found []Point
 			for _, pp := range f.Find(isPut) {
@@ -370,23 +391,47 @@ func runC07(c *Ctx) {
 				r.Pass("seq/next-increment", "kvstore.Sequence.Next", f.PosOf(reads[0]), "next++ follows the read on every path")
 			}
 			// the returned value is the one read
-			okRet := false
-			ast.Inspect(fd.Body, func(n ast.Node) bool {
-				if rs, ok := n.(*ast.ReturnStmt); ok && len(rs.Results) == 2 && isNil(info, rs.Results[1]) {
-					as := f.nodeAt(reads[0]).(*ast.AssignStmt)
-					res := rs.Results[0]
-					if rpt, found := f.PointOf(rs); found {
-						// through a hand-out helper: what the helper returns
-						if re, rept := f.Resolve(res, rpt); re != nil && ast.Unparen(re) == ast.Unparen(as.Rhs[0]) && f.At(rept, reads[0]) {
-							okRet = true // resolves to the very read of next at the hand-out point
+			// every return that can follow the hand-out point returns the value read there (whatever
+			// the error result is spelled as: an early `return 0, err` cannot follow the read)
+			okRet, nRet := true, 0
+			as := f.nodeAt(reads[0]).(*ast.AssignStmt)
+			after := func(q Point) bool {
+				_, found := f.reach(Point{reads[0].B, reads[0].I + 1}, nil, func(x Point, atExit bool) bool { return !atExit && f.At(x, q) })
+				return found
+			}
+			for _, rpt := range f.Find(func(n ast.Node) bool { _, ok := n.(*ast.ReturnStmt); return ok }) {
+				rs := f.nodeAt(rpt).(*ast.ReturnStmt)
+				if !after(rpt) {
+					continue
+				}
+				nRet++
+				if len(rs.Results) == 0 {
+					okRet = false
+					continue
+				}
+				res := rs.Results[0]
+				good := false
+				if re, rept := f.Resolve(res, rpt); re != nil && ast.Unparen(re) == ast.Unparen(as.Rhs[0]) && f.At(rept, reads[0]) {
+					good = true // resolves to the very read of next at the hand-out point (also through a hand-out helper)
+				}
+				if v := objOfIdent(info, res); !good && v != nil && len(as.Lhs) == 1 && v == objOfIdent(info, as.Lhs[0]) {
+					defs, _ := f.ReachingDefs(rpt, v)
+					good = false
+					clean := true
+					for _, d := range defs {
+						if f.At(d.At, reads[0]) {
+							good = true
+						} else if after(d.At) {
+							clean = false // overwritten after the read
 						}
 					}
-					if objOfIdent(info, res) != nil && objOfIdent(info, res) == objOfIdent(info, as.Lhs[0]) {
-						okRet = true
-					}
+					good = good && clean
 				}
-				return true
-			})
+				if !good {
+					okRet = false
+				}
+			}
+			okRet = okRet && nRet > 0
 			if okRet {
 				r.Pass("seq/next-returns-read", "kvstore.Sequence.Next", f.PosOf(reads[0]), "the success return is the value read before the increment")
 			} else {
@@ -396,24 +441,31 @@ func runC07(c *Ctx) {
 	}
 }
 
-// encodedValueBefore finds the value passed to <order>.PutUint64(buf, v) that encodes the
-// buffer handed to the store call sc (nearest preceding PutUint64 in source order).
-func encodedValueBefore(f *FuncCFG, sc *ast.CallExpr) ast.Expr {
-	var best *ast.CallExpr
-	inspectNoLit(f.Body, func(n ast.Node) bool {
-		if c, ok := n.(*ast.CallExpr); ok {
-			if se, ok := ast.Unparen(c.Fun).(*ast.SelectorExpr); ok && se.Sel.Name == "PutUint64" && len(c.Args) == 2 && c.Pos() < sc.Pos() {
-				if best == nil || c.Pos() > best.Pos() {
-					best = c
-				}
-			}
-		}
-		return true
-	})
-	if best == nil {
-		return nil
+// uint64Codec recognises the encoding/binary spellings of the 8-byte integer codec: the byte
+// order's PutUint64(buf, v) and AppendUint64(b, v) encode v, Uint64(b) decodes. It returns the
+// role, the byte order's name and, for an encoder, the encoded value.
+func uint64Codec(info *types.Info, c *ast.CallExpr) (role, order string, val ast.Expr) {
+	se, ok := ast.Unparen(c.Fun).(*ast.SelectorExpr)
+	if !ok {
+		return
 	}
-	return best.Args[1]
+	fn, ok := info.Uses[se.Sel].(*types.Func)
+	if !ok || fn.Pkg() == nil || fn.Pkg().Path() != "encoding/binary" {
+		return
+	}
+	switch x := ast.Unparen(se.X).(type) {
+	case *ast.SelectorExpr:
+		order = x.Sel.Name
+	case *ast.Ident:
+		order = x.Name
+	}
+	switch {
+	case (fn.Name() == "PutUint64" || fn.Name() == "AppendUint64") && len(c.Args) == 2:
+		return "enc", order, c.Args[1]
+	case fn.Name() == "Uint64" && len(c.Args) == 1:
+		return "dec", order, nil
+	}
+	return "", "", nil
 }
 
 // definingExpr returns the RHS of the unique assignment defining the local variable e.
